@@ -6,6 +6,7 @@ import (
 	"sort"
 	"testing"
 
+	segment "github.com/blugelabs/bluge_segment_api"
 	"pgregory.net/rapid"
 )
 
@@ -148,6 +149,35 @@ func TestC08(t *testing.T) {
 			rapid.SampledFrom([]int{0, 1, 1, 1, 2}).Draw(t, "depth"), "c")
 		if err != nil {
 			t.Fatalf("%s: %v", sc, err)
+		}
+		if rapid.Bool().Draw(t, "lookupsFirst") {
+			// earlier lookups through the library's own reuse paths must not influence what dictionaries report
+			var list []segment.Term
+			for _, f := range c.Exp.Fields {
+				for _, tm := range sortedKeys(c.Exp.Post[f]) {
+					list = append(list, ftTerm{f, tm})
+				}
+			}
+			list = append(list, ftTerm{UnknownField, "x"}, ftTerm{"a", "absent"})
+			if err := safely("DocsMatchingTerms", func() error { _, e := c.Seg.DocsMatchingTerms(list); return e }); err != nil {
+				t.Fatalf("%s %s: %v", sc, c.Desc, err)
+			}
+			err := safely("reuse idiom", func() error {
+				var pl segment.PostingsList
+				for _, x := range list {
+					d, err := c.Seg.Dictionary(x.Field())
+					if err != nil {
+						return err
+					}
+					if pl, err = d.PostingsList(x.Term(), nil, pl); err != nil {
+						return err
+					}
+				}
+				return nil
+			})
+			if err != nil {
+				t.Fatalf("%s %s: %v", sc, c.Desc, err)
+			}
 		}
 		nq := rapid.IntRange(1, 4).Draw(t, "nQueries")
 		labels := c.LabelList()
